@@ -257,8 +257,8 @@ pub fn profile(name: &str) -> Option<Profile> {
             name: "ingest",
             weights: w(&[
                 (LatePair, 2),
-                (Put, 26), (Del, 8), (Batch, 5), (Rotate, 6), (Flush, 8), (FlushSealed, 2), (Leveled, 8),
-                (Major, 3), (MoveDown, 2), (PullDown, 2), (SnapOpen, 6), (SnapRelease, 4), (Reopen, 4),
+                (Put, 26), (Del, 8), (Batch, 5), (Rotate, 6), (Flush, 8), (FlushSealed, 2), (Leveled, 12),
+                (Major, 3), (MoveDown, 3), (PullDown, 4), (SnapOpen, 4), (SnapRelease, 5), (Reopen, 4),
                 (Ingest, 14), (IngestAbandon, 2),
             ]),
             n_g: 30,
@@ -528,7 +528,7 @@ pub fn gen_history(rng: &mut Rng, p: &Profile, uni: &Universe, thresholds: &[u32
                 Op::Ingest {
                     items: ks
                         .into_iter()
-                        .map(|k| (k, if rng.chance(1, 5) { None } else { Some(value_len(rng, thresholds)) }))
+                        .map(|k| (k, if rng.chance(1, 3) { None } else { Some(value_len(rng, thresholds)) }))
                         .collect(),
                     abandon: x == Kind::IngestAbandon as usize,
                 }
@@ -547,6 +547,46 @@ pub fn gen_history(rng: &mut Rng, p: &Profile, uni: &Universe, thresholds: &[u32
             _ => continue,
         };
         ops.push(op);
+    }
+    // "Three generations" of one key at three depths: the oldest value in the last level, a newer value in L0, and
+    // on top a delete / overwrite / ingested tombstone - then L0 is merged into an INTERMEDIATE level with the
+    // tightest legal watermark, while the oldest generation stays below and outside the merge. Random histories
+    // reach this layout rarely; garbage collection that is only legal at the last level (tombstone eviction,
+    // single-delete annihilation, seqno zeroing) shows here.
+    if p.max_ops >= 100 && p.weights[Kind::PullDown as usize] > 0 && !gd.is_empty() && p.name != "dense" && rng.chance(1, 2) {
+        for _ in 0..rng.range(1, 2) {
+            let k = pick_gd(rng);
+            let vl = |rng: &mut Rng| value_len(rng, thresholds);
+            let mut m = vec![
+                Op::Put { k, vlen: vl(rng) },
+                Op::Flush { rotate: true, wm: 0 },
+                Op::Major { target: u64::MAX, wm: gen_wm(rng) },
+                Op::Put { k, vlen: vl(rng) },
+                Op::Flush { rotate: true, wm: 0 },
+            ];
+            let with_ingest = p.weights[Kind::Ingest as usize] > 0;
+            match rng.below(if with_ingest { 6 } else { 3 }) {
+                0 => m.extend([Op::Del { k }, Op::Flush { rotate: true, wm: 0 }]),
+                1 => m.extend([Op::Put { k, vlen: vl(rng) }, Op::Flush { rotate: true, wm: 0 }]),
+                2 => m.push(Op::Del { k }),
+                _ => {
+                    let mut ks: Vec<usize> = (0..rng.range(0, 3)).map(|_| *rng.pick(&gd)).collect();
+                    ks.push(k);
+                    ks.sort_unstable();
+                    ks.dedup();
+                    m.push(Op::Ingest { items: ks.into_iter().map(|x| (x, if x == k || rng.chance(1, 3) { None } else { Some(vl(rng)) })).collect(), abandon: false });
+                }
+            }
+            if rng.chance(3, 4) {
+                m.extend((0..p.snap_slots).map(|slot| Op::SnapRelease { slot }));
+            }
+            m.push(Op::PullDown { a: 0, b: rng.range(1, 5) as u8, wm: 1000 });
+            if rng.chance(1, 2) {
+                m.push(Op::Leveled { target: gen_target(rng, true), l0: 1, ratio: 2, reps: 1, wm: 1000 });
+            }
+            let pos = rng.usize(ops.len() + 1);
+            ops.splice(pos..pos, m);
+        }
     }
     ops
 }
